@@ -177,3 +177,28 @@ def find_nodes(root, typ, pred=None, nested=False):
         (n for n in it if isinstance(n, typ) and (pred is None or pred(n))),
         key=lambda n: (getattr(n, "lineno", 0), getattr(n, "col_offset", 0)),
     )
+
+
+def utext(node):
+    """normalised code text of a node: unparsed, docstrings dropped, blanks removed (so a formula quoted in a docstring can
+    never satisfy a rule)"""
+    import copy
+
+    if isinstance(node, (ast.FunctionDef, ast.AsyncFunctionDef, ast.ClassDef, ast.Module)):
+        node = copy.copy(node)
+        body = list(node.body)
+        if body and isinstance(body[0], ast.Expr) and isinstance(body[0].value, ast.Constant) and isinstance(body[0].value.value, str):
+            body = body[1:] or [ast.Pass()]
+        new = []
+        for b in body:
+            if isinstance(b, (ast.FunctionDef, ast.AsyncFunctionDef, ast.ClassDef)):
+                b2 = copy.copy(b)
+                bb = list(b2.body)
+                if bb and isinstance(bb[0], ast.Expr) and isinstance(bb[0].value, ast.Constant) and isinstance(bb[0].value.value, str):
+                    bb = bb[1:] or [ast.Pass()]
+                b2.body = bb
+                new.append(b2)
+            else:
+                new.append(b)
+        node.body = new
+    return ast.unparse(node).replace(" ", "")
